@@ -598,6 +598,38 @@ def r9(F, R):
 
 
 
+def r10(F, R):
+    """The draw counter advances once per *returned* draw."""
+    from .c05 import agg_blocks
+    R.rule("C16-R10", "in every Chain::draw the draw counter is incremented only on the way to the successful return: no error exit (`?`, Err(..)) is reachable "
+                      "after the increment, so a failed draw does not consume a counter value and `draw` / `divergence_draw` increase by one per recorded draw")
+    n = 0
+    for b in F.trait_method_impls("chain::Chain", "draw"):
+        adt = b.parent.get("self_adt")
+        incs = [(bb, st) for (wb, bb, st, v, how) in K.field_writers(F, adt, "draw_count") if wb.path == b.path and how == "assign"]
+        site = "%s @%s" % (b.path, b.loc())
+        key = b.path + ":counter-after-failures"
+        if not incs:
+            R.bad("C16-R10", key, site, "no increment of draw_count in draw()")
+            continue
+        n += 1
+        errs = set(x[0] for x in agg_blocks(b, "Result", "Err") if x[1]["pl"]["l"] == 0)
+        for bb, t in b.calls():
+            if strip_generics(t["callee"].get("path", "")).endswith("FromResidual::from_residual") and not t["dest"]["p"] and t["dest"]["l"] == 0:
+                errs.add(bb)
+        late = []
+        for ib, st in incs:
+            reach = b.reach_from(ib)
+            late += [e_ for e_ in errs if e_ in reach and e_ != ib]
+        if late:
+            R.bad("C16-R10", key, "%s @%s" % (b.path, loc(incs[0][1]["span"])), "an error return is reachable after draw_count was incremented (%d error exits): a draw that "
+                  "failed still uses up a value of the `draw` statistic" % len(set(late)))
+        else:
+            R.ok("C16-R10", key, site, "draw_count is incremented after the last fallible step")
+    R.floor("C16-R10", 2)
+
+
+
 def run(F, R, config=None):
     decl = r1_r2_r3(F, R)
     r4_r5(F, R, decl)
@@ -606,6 +638,11 @@ def run(F, R, config=None):
     r7(F, R)
     r8(F, R, decl)
     r9(F, R)
+    r10(F, R)
+    # the update marker is the transformation id: it must change whenever the transformation does (C02-R5 analysis)
+    from . import c02
+    K.borrow_rule(R, lambda sub: c02.r5(F, sub), "C16-R11", "every function that changes a transformation (scales, mean, low-rank part) also increments its id, so the "
+                  "`transformation_update` event fields appear exactly on the draws after which the transformation changed (C02-R5 analysis)", only_rules={"C02-R5"})
     R.assume("user-supplied Storable impls (draw data) satisfy the documented contract; only workspace impls are analysed")
     R.assume("vector lengths equal the runtime size of the declared dimension (value statement, not decided)")
 
